@@ -421,7 +421,7 @@ func runCase(spec *CaseSpec) (obs CaseObs) {
 	}
 	// everything queued must have been taken (or the session closed) before observing
 	for i, s := range sess {
-		if s == nil {
+		if s == nil || queued[i] == 0 {
 			continue
 		}
 		if !s.waitConsumed(queued[i], barrierTimeout) && obs.Wedged == "" {
